@@ -506,14 +506,26 @@ fn finish(outcome: Result<Result<(), LibErr>, Outcome>, src: Option<(&Backing, &
     }
 }
 
+/// F7: the source image shared by the clients of this execution, and its pristine copy
+pub static SHARED_SRC: Mutex<Option<(Arc<Backing>, Arc<Vec<u8>>)>> = Mutex::new(None);
+
 pub fn exec_resize(rz: &mut fir::Resizer, r: &ResizeOp, backend: Option<Backend>, var: Var) -> OpOut {
-    let src = make_src(&r.src, r.pt);
-    let src_before = zone::off(|| src.vec.clone());
+    let shared = if r.shared_src { SHARED_SRC.lock().unwrap().clone() } else { None };
+    let owned;
+    let owned_before;
+    let (src, src_before): (&Backing, &Vec<u8>) = match &shared {
+        Some((b, before)) if b.pt == r.pt && b.g.w == r.src.w && b.g.h == r.src.h => (&**b, &**before),
+        _ => {
+            owned = make_src(&r.src, r.pt);
+            owned_before = zone::off(|| owned.vec.clone());
+            (&owned, &owned_before)
+        }
+    };
     let dpt = r.dst_pt.unwrap_or(r.pt);
     let mut dst = make_dst(&r.dst, dpt, var.sentinel, false);
     let opts = match resize_options(r) {
         Ok(o) => o,
-        Err(e) => return finish(Ok(Err(e)), Some((&src, &src_before)), &dst),
+        Err(e) => return finish(Ok(Err(e)), Some((src, src_before)), &dst),
     };
     if let Some(b) = backend {
         unsafe { rz.set_cpu_extensions(cpu_ext(b)) };
@@ -522,16 +534,16 @@ pub fn exec_resize(rz: &mut fir::Resizer, r: &ResizeOp, backend: Option<Backend>
     let res = if r.src.kind.is_dyn() {
         guarded(|| {
             let mut op = ResizeT { rz, opts: &opts };
-            with_dyn2(&r.src, &src, r.pt, &r.dst, &mut dst, dpt, &mut op)
+            with_dyn2(&r.src, src, r.pt, &r.dst, &mut dst, dpt, &mut op)
         })
     } else {
         with_pt!(r.pt, P, guarded(|| {
             let mut op = ResizeT { rz, opts: &opts };
-            with_typed2::<P, _, _>(&r.src, &src, &r.dst, &mut dst, &mut op)
+            with_typed2::<P, _, _>(&r.src, src, &r.dst, &mut dst, &mut op)
         }))
     };
     clear_watch();
-    finish(res, Some((&src, &src_before)), &dst)
+    finish(res, Some((src, src_before)), &dst)
 }
 
 pub fn exec_alpha(a: &AlphaOp, backend: Backend, var: Var) -> OpOut {
@@ -817,6 +829,19 @@ pub fn execution_body() {
     // job write-sets are only meaningful when a job contains no scheduling point
     enable_snapshots(scn.job_snapshots && !keep);
     WATCH_OVERLAPS.lock().unwrap().clear();
+    // F7: one source image for all clients that ask for it
+    {
+        let first = scn.clients.iter().flat_map(|c| c.ops.iter()).find_map(|o| match &o.kind {
+            OpKind::Resize(r) if r.shared_src => Some(r.clone()),
+            _ => None,
+        });
+        let v = first.map(|r| {
+            let b = make_src(&r.src, r.pt);
+            let before = zone::off(|| b.vec.clone());
+            (Arc::new(b), Arc::new(before))
+        });
+        *SHARED_SRC.lock().unwrap() = v;
+    }
     let n = scn.clients.len();
     let outs: Vec<Vec<OpOut>> = if n == 1 || var.force_pool1 {
         (0..n).map(|ci| run_client(&scn, ci, var, false)).collect()
@@ -830,6 +855,11 @@ pub fn execution_body() {
         handles.into_iter().map(|h| h.join().unwrap()).collect()
     };
     enable_snapshots(false);
+    {
+        let v = SHARED_SRC.lock().unwrap().take();
+        let _z = zone::enter(zone::USER);
+        drop(v);
+    }
     let log = events::take();
     let overlaps = std::mem::take(&mut *WATCH_OVERLAPS.lock().unwrap());
     *EXEC_RESULT.lock().unwrap() = Some(ExecResult { outs, log, overlaps });
